@@ -130,10 +130,50 @@ def C12_insert_statement : Prop :=
     ∃ t' rm, insertPath nw true t p = .ok (t', rm) ∧
       insertSpecB nw t.isDummy t.nodes p t'.nodes rm = true
 
-/-- C12 (sub-path), full strength: extracting an existing segment always succeeds with the slice -/
-def C12_subpath_statement : Prop :=
-  ∀ (nw : Network) (t : Tour) (a b : Nat) (sl : List Nat), C17.DepotTimes nw → NodesWF nw →
-    TourValid nw t → subPathRef nw t.nodes a b = some sl → subPath nw true t a b = .ok sl
+/-- **C12 (sub-path), full strength**: extracting an existing segment — both endpoints on the
+    tour, in order, at least one activity in between — always succeeds with exactly the slice.
+    Holds for every node list (real or dummy tour, connectable neighbours or not). -/
+theorem C12_subpath (nw : Network) (t : Tour) (a b : Nat) (sl : List Nat)
+    (h : subPathRef nw t.nodes a b = some sl) : subPath nw t a b = .ok sl := by
+  unfold subPathRef posOf at h
+  unfold subPath positionOf
+  cases hs : t.nodes.findIdx? (· == a) with
+  | none => simp [hs] at h
+  | some s =>
+    cases he : t.nodes.findIdx? (· == b) with
+    | none => simp [hs, he] at h
+    | some e =>
+      simp only [hs, he] at h
+      have hlt : e < t.nodes.length := by
+        have := List.findIdx?_eq_some_iff_findIdx_eq.mp he
+        omega
+      by_cases hse : s ≤ e
+      · simp only [hse, ↓reduceIte] at h
+        split at h
+        · rename_i hnd
+          cases h
+          have hgt : ¬ s > e := by omega
+          simp only [pure, Except.pure, bind, Except.bind, hgt, ↓reduceIte, slice]
+          have : (decide (s ≤ e + 1) && decide (e + 1 ≤ t.nodes.length)) = true := by
+            simp; omega
+          simp only [this, ↓reduceIte, pathTrusted]
+          have hnd' : (List.take (e + 1 - s) (List.drop s t.nodes)).all (fun n => (nw.node n).isDepot) = false := by
+            unfold hasNonDepot at hnd
+            rw [Bool.eq_false_iff]
+            intro hall
+            rw [List.any_eq_true] at hnd
+            obtain ⟨x, hx, hx2⟩ := hnd
+            have := List.all_eq_true.mp hall x hx
+            simp [this] at hx2
+          simp [hnd']
+        · cases h
+      · simp [hse] at h
+
+/-- the pinned `sub_path` rejects an existing segment of a dummy tour whose neighbours are not
+    directly connectable (finding F13); the statement for the pinned code is therefore false -/
+def C12_subpath_pinned_statement : Prop :=
+  ∀ (nw : Network) (t : Tour) (a b : Nat) (sl : List Nat),
+    subPathRef nw t.nodes a b = some sl → subPathPinned nw true t a b = .ok sl
 
 /-! ### witness: the pinned comparisons break the reference semantics at a tie (finding F2) -/
 
